@@ -111,10 +111,10 @@ def eval_pymath(graph, args):
             if value not in PY_NAMED:
                 raise Unsupported(value)
             return PY_NAMED[value]()
+        if isinstance(value, numpy.generic):  # first: numpy.float64 is a float too, but the emitted literal is a Python float
+            return value.item()
         if isinstance(value, (bool, int, float, complex)):
             return value
-        if isinstance(value, numpy.generic):
-            return value.item()
         raise Unsupported(type(value).__name__)
 
     try:
